@@ -97,6 +97,8 @@ pub const DOCS: &[&str] = &[
     "<html><head></head><body></body></html><!-- trailing --><div>after html</div>",
     // the last Unicode planes (lead byte 0xF4) and the maximal code point, next to targets of the standard filters
     "<html><head><title>\u{10ffff}</title></head><body><div>\u{100000}x\u{10fffd}</div><p>a\u{10ffff}</p>1 < 2</body></html>",
+    // unquoted attribute values with non-ASCII characters (continuation bytes 0x85 / 0xA0 among them)
+    "<html><body><div title=\u{e0}b lang=\u{c5}\u{445} data-x=\u{5168}\u{a0}y class=\u{e9}>unquoted</div><a href=/x\u{e0}>l</a></body></html>",
     // custom elements whose names start like raw-text elements
     "<html><head><title>t</title></head><body><title-bar><div>x</div></title-bar><style-guide><p>y</p></style-guide><script-x><div>z</div></script-x><div>real</div></body></html>",
     // explicit end tags of void elements, stray end tags (common in hand-written and generated pages)
